@@ -179,9 +179,34 @@ def side_accumulators(fn):
     return out
 
 
+LIMIT_NAMES = ("min_weight_split", "min_weight_leaf", "min_impurity_decrease")
+
+
 def rule_limits(ctx):
     res = RuleResult("R-C14-limits", "split creation is dominated by the min_weight_split / max_depth / min_impurity_decrease tests; candidates below min_weight_leaf are skipped; children get depth + 1")
     F = ctx.facts()
+    # the limits are compared as given: a truncating copy (`min_weight_split as usize`, round / floor) lets nodes with
+    # floor(limit) samples through although the limit says otherwise
+    for f in F.all_fns():
+        if f["d"]["krate"] != "linfa_trees":
+            continue
+        c_ = f["crate"]
+        for n in walk(f["body"]):
+            bad = None
+            if n.get("k") == "Cast":
+                tt = (c_.ty(n.get("t")) or "").strip()
+                st = (c_.ty(strip(n["e"]).get("t")) or "").strip().lstrip("&")
+                if tt in ("u8", "u16", "u32", "u64", "usize", "i8", "i16", "i32", "i64", "isize") and (st in ("f32", "f64") or len(st) == 1):
+                    bad = "as " + tt
+            elif n.get("k") == "MethodCall" and n["name"] in ("round", "floor", "ceil", "trunc", "to_usize", "to_u64", "to_i64", "to_u32", "to_i32") and not n["args"]:
+                bad = "." + n["name"] + "()"
+            if not bad:
+                continue
+            src = n["e"] if n.get("k") == "Cast" else n["recv"]
+            names = [y.get("name") for y in walk(src) if y.get("k") in ("Field", "MethodCall") and y.get("name") in LIMIT_NAMES]
+            if names:
+                res.instance("%s : %s of %s" % (fn_key(f), bad, names[0]))
+                res.violate("%s : limit-truncated:%s" % (fn_key(f), names[0]), "the limit `%s` is passed through `%s` before it is compared: a fractional limit is rounded, so nodes that the limit forbids to split (or leaves lighter than the limit) are accepted" % (names[0], bad), fn_loc(f, n["ln"]))
     for fn in find_fn(res, F, "fit", "TreeNode"):
         key = fn_key(fn)
         tr = Tracer(fn, inline=ctx.inliner(keep=("fit",))).run()
@@ -239,7 +264,9 @@ def rule_limits(ctx):
                 res.violate("%s : limit-reversed:%s" % (key, name), "the %s test is reversed: expected %s" % (name, what), fn_loc(fn))
             else:
                 from .sym import sufficient_cmps as _suff
-                opaque = [e for e in evs if e.guards and not any(_suff(g[3], g[0] == "+") for g in e.guards)]
+                # an exit whose condition the rule cannot read matters only if that condition mentions the limit at all
+                base_name = name.split("(")[0].strip()
+                opaque = [e for e in evs if e.guards and not any(_suff(g[3], g[0] == "+") for g in e.guards) and any(base_name in g[1] for g in e.guards)]
                 res.violate("%s : limit-missing:%s" % (key, name), "no early exit guarded by the %s test before the split is created (expected: %s)%s" % (name, what, "; %d exit(s) have conditions this rule cannot read" % len(opaque) if opaque else ""), fn_loc(fn), undecided=bool(opaque))
     return res.finish(7)
 
